@@ -177,6 +177,14 @@ T("np.logspace", "bare-exponents-unit-arg", lambda a: np.logspace(a, a + a, 3), 
 for sh, kw in (((4,), {}), ((2, 3), {"mode": "edge"}), ((2, 3), {"mode": "reflect"}), ((4,), {"mode": "wrap"}), ((4,), {"mode": "mean"}), ((4,), {"mode": "linear_ramp"})):
     T("np.pad", f"{kw or 'constant0'}|{sh}", (lambda a, kw=kw: np.pad(a, 1, **kw)), {"a": I("X", sh)})
 T("np.pad", "widths|(2,3)", lambda a: np.pad(a, ((1, 0), (0, 2))), {"a": I("X", (2, 3))})
+# fill values handed over as quantities (they become elements of the result): one value, a (before, after) pair, per-axis nested pairs
+T("np.pad", "constant_values-q|(4,)", lambda a, v: np.pad(a, 1, constant_values=v), {"a": I("X", (4,)), "v": I("X", ())})
+T("np.pad", "constant_values-pair|(4,)", lambda a, v, w: np.pad(a, (1, 2), constant_values=(v, w)), {"a": I("X", (4,)), "v": I("X", ()), "w": I("X", ())})
+T("np.pad", "constant_values-nested|(2,3)", lambda a, v, w: np.pad(a, 1, constant_values=((v, w), (w, v))), {"a": I("X", (2, 3)), "v": I("X", ()), "w": I("X", ())})
+T("np.pad", "constant_values-nested-list|(2,3)", lambda a, v, w: np.pad(a, ((1, 0), (2, 1)), constant_values=[[v, w], [w, v]]), {"a": I("X", (2, 3)), "v": I("X", ()), "w": I("X", ())})
+T("np.pad", "end_values-q|(4,)", lambda a, v: np.pad(a, 2, mode="linear_ramp", end_values=v), {"a": I("X", (4,)), "v": I("X", ())})
+T("np.pad", "end_values-pair|(4,)", lambda a, v, w: np.pad(a, 2, mode="linear_ramp", end_values=(v, w)), {"a": I("X", (4,)), "v": I("X", ()), "w": I("X", ())})
+T("np.pad", "end_values-nested|(2,3)", lambda a, v, w: np.pad(a, 2, mode="linear_ramp", end_values=((v, w), (w, v))), {"a": I("X", (2, 3)), "v": I("X", ()), "w": I("X", ())})
 T("np.pad", "constant_values-bare|(4,)", lambda a: np.pad(a, 1, constant_values=5.0), {"a": I("X", (4,))}, noncov="bare constant is read in the array's current unit")
 
 # ---- interpolation, convolution, histograms --------------------------------------------------------------
